@@ -77,17 +77,69 @@ def toJVal : Json → JVal
   | .num n => if n.exponent = 0 then .int n.mantissa else .other (Json.num n).compress
   | j => .other j.compress
 
-/-- `_parse_atom_attributes(token)` / `json.loads` of a dictionary token -/
-def parseAttrs (tok : String) : Option Attrs :=
-  if !startsWithBrace tok then none
-  else match Json.parse tok with
-    | .ok (.obj kv) => some (kv.toList.map fun (k, v) => (k, toJVal v))
-    | _ => none
-
 def parseJVal (tok : String) : Option JVal :=
   match Json.parse tok with
   | .ok j => some (toJVal j)
   | .error _ => none
+
+/-- a string value containing `|` becomes `Choice(value.split('|'))` -/
+def attrValue : Json → JVal
+  | .str s => if s.toList.contains '|' then .choice (s.splitOn "|") else .str s
+  | j => toJVal j
+
+/-- `_parse_atom_attributes(token)` / `json.loads` of a dictionary token -/
+def parseAttrs (tok : String) : Option Attrs :=
+  if !startsWithBrace tok then none
+  else match Json.parse tok with
+    | .ok (.obj kv) => some (kv.toList.map fun (k, v) => (k, attrValue v))
+    | _ => none
+
+/-- keys of `VALUE_PREDICATES` (checked against the extracted table by `Tables.predicates_match`) -/
+def valuePredicates : List String := ["not"]
+
+/-- `PARAMETER_EFFECTORS` with `n_keys_asked` (checked against the extracted table) -/
+def paramEffectors : List (String × Option Nat) :=
+  [("angle", some 3), ("dihedral", some 4), ("dihphase", some 4), ("dist", some 2)]
+
+/-- `_is_param_effector(token)` -/
+def isEffectorTok (t : String) : Bool :=
+  let cs := t.toList
+  cs.contains '(' && cs.head? != some '(' && cs.getLast? = some ')'
+
+/-- `_parse_interaction_parameters` on one token: a parameter effector must name a known effector,
+have at most one `|` (format) and the number of keys its class asks for; the token itself is kept
+verbatim (floats and effectors are never evaluated by the reader). -/
+def paramOk (t : String) : Bool :=
+  if !isEffectorTok t then true
+  else
+    let cs := t.toList
+    let name := String.ofList (cs.takeWhile (· ≠ '('))
+    let inner := String.ofList ((cs.dropWhile (· ≠ '(')).drop 1).dropLast
+    match paramEffectors.find? (fun e => e.1 = name) with
+    | none => false
+    | some (_, nkeys) =>
+      let parts := inner.splitOn "|"
+      let keyStr := if inner.toList.contains '|' then parts.head! else inner
+      (!inner.toList.contains '|' || parts.length = 2) &&
+      (match nkeys with
+       | some n => (keyStr.splitOn ",").length = n
+       | none => true)
+
+/-- the value of a link attribute line (`_parse_link_attribute`) -/
+def linkAttrValue (v : String) : Option JVal :=
+  let cs := v.toList
+  if cs.contains '|' then
+    match Json.parse v with
+    | .ok (.str s) => some (.choice (s.splitOn "|"))
+    | _ => none
+  else if cs.contains '(' && cs.getLast? = some ')' && cs.head? != some '(' then
+    let func := String.ofList (cs.takeWhile (· ≠ '('))
+    let arg := String.ofList ((cs.dropWhile (· ≠ '(')).drop 1).dropLast
+    match Json.parse arg with
+    | .ok j => if valuePredicates.contains func then some (.notP j.compress) else none
+    | .error _ => none
+  else parseJVal v
+
 
 /-- `dict(a); .update(b)` : b over a -/
 def attrsUpdate (a b : Attrs) : Attrs := b.foldl (fun acc kv => acc.set kv.1 kv.2) a
@@ -98,6 +150,8 @@ structure Inter where
   sect : String
   atoms : List String
   params : List String
+  /-- ITP: the `#ifdef`/`#ifndef` condition and tag in force (`{condition: tag}`) -/
+  pmeta : Option (String × String) := none
   deriving Repr, DecidableEq, Inhabited
 
 structure Ctx where
@@ -150,14 +204,17 @@ def atomsWithAttrs (natoms : Option Nat) (check : Bool) (toks : List String) :
 
 /-- the tail of `_base_parser`: optional trailing meta dictionary, parameters -/
 def paramsOf (rest : List String) : Option (List String) :=
-  match rest.getLast? with
-  | some l =>
-    if startsWithBrace l then
-      match Json.parse l with
-      | .ok _ => some rest.dropLast
-      | .error _ => none
-    else some rest
-  | none => some []
+  let ps := match rest.getLast? with
+    | some l =>
+      if startsWithBrace l then
+        match Json.parse l with
+        | .ok _ => some rest.dropLast
+        | .error _ => none
+      else some rest
+    | none => some []
+  match ps with
+  | some l => if l.all paramOk then some l else none
+  | none => none
 
 /-- `_treat_block_interaction_atoms` (python list indexing: index 0 is the last atom) -/
 def blockRef (c : Ctx) (ref : String) : Option String :=
@@ -277,7 +334,7 @@ def linkAttrLine (molmeta : Bool) (line : String) (c : Ctx) : Option Ctx := do
   let toks ← tokenizeS line
   match toks with
   | [k, v] =>
-    let jv ← parseJVal v
+    let jv ← linkAttrValue v
     if molmeta then pure c else pure { c with allNodes := c.allNodes.set k jv }
   | _ => none
 
@@ -355,6 +412,66 @@ def idxPositions (len : Nat) : List Idx → Option (List Nat)
     let stop := min (b.getD len) len
     (idxPositions len rest).map ((List.range stop).drop a ++ ·)
 
+/-! #### pragmas (`ITPDirector.parse_pragma`, `is_pragma`, the check in `finalize`) -/
+
+abbrev PMeta := Option (String × String)
+
+def startsWithS (s pre : String) : Bool := pre.toList.isPrefixOf s.toList
+
+/-- `parse_pragma(line)` on `current_meta`; `none` = IOError / ValueError / KeyError -/
+def pragmaStep (m : PMeta) (line : String) : Option PMeta :=
+  if line = "#endif" then
+    match m with
+    | some _ => some none
+    | none => none
+  else if startsWithS line "#else" then
+    match m with
+    | none => none
+    | some (c, t) =>
+      if c = "ifdef" then some (some ("ifndef", t))
+      else if c = "ifndef" then some (some ("ifdef", t))
+      else none
+  else if startsWithS line "#ifdef" || startsWithS line "#ifndef" then
+    match m with
+    | some _ => none
+    | none =>
+      match splitWs line with
+      | [c, t] => some (some (String.ofList (c.toList.filter (· ≠ '#')), t))
+      | _ => none
+  else if startsWithS line "#define" then some m
+  else none
+
+/-- Pragma pre-pass: pragma lines (content lines starting with `#`, which `dispatch` sends to
+`parse_pragma` and never to a section) are consumed; every other line is paired with the
+`current_meta` in force when it is read. `none` = a pragma error, or an unclosed `#ifdef` at the
+end of the file. Pragmas do not look at sections and sections do not look at pragmas except through
+`current_meta`, so this factoring is exact. -/
+def pragmaPass : PMeta → List Line → Option (List (Line × PMeta))
+  | m, [] => if m.isSome then none else some []
+  | m, .header n :: r => (pragmaPass m r).map fun l => (.header n, m) :: l
+  | m, .content t :: r =>
+    if startsWithS t "#" then
+      match pragmaStep m t with
+      | none => none
+      | some m' => pragmaPass m' r
+    else (pragmaPass m r).map fun l => (.content t, m) :: l
+
+/-- the meta in force is handed to the section handlers in front of the line text -/
+def encodeMeta (m : PMeta) (t : String) : String :=
+  match m with
+  | none => t
+  | some (c, g) => String.ofList ('\x01' :: c.toList ++ '\x02' :: g.toList ++ '\x03' :: t.toList)
+
+def decodeMeta (t : String) : PMeta × String :=
+  match t.toList with
+  | '\x01' :: rest =>
+    let c := rest.takeWhile (· ≠ '\x02')
+    let r1 := (rest.dropWhile (· ≠ '\x02')).drop 1
+    let g := r1.takeWhile (· ≠ '\x03')
+    let r2 := (r1.dropWhile (· ≠ '\x03')).drop 1
+    (some (String.ofList c, String.ofList g), String.ofList r2)
+  | _ => (none, t)
+
 def itpRef (c : Ctx) (ref : String) : Option String :=
   if allDigits ref then
     match ref.toNat? with
@@ -362,14 +479,15 @@ def itpRef (c : Ctx) (ref : String) : Option String :=
     | some n => if n < 1 then none else c.snapshot[n - 1]?
   else none     -- a name is never a node of an ITP block (nodes are indices)
 
-def itpInteraction (idxTab : List (String × List Idx)) (sect : String) (line : String) (c : Ctx) : Option Ctx := do
+def itpInteraction (idxTab : List (String × List Idx)) (sect : String) (line0 : String) (c : Ctx) : Option Ctx := do
+  let (pm, line) := decodeMeta line0
   let toks ← tokenizeS line
   let idxs ← (idxTab.find? (fun e => e.1 = sect)).map (·.2)
   let pos ← idxPositions toks.length idxs
   let atoms := pos.filterMap fun i => toks[i]?
   let params := (List.range toks.length).filterMap fun i => if pos.contains i then none else toks[i]?
   let refs ← atoms.mapM (itpRef c)
-  pure { c with inters := c.inters ++ [{ sect := sect, atoms := refs, params := params }] }
+  pure { c with inters := c.inters ++ [{ sect := sect, atoms := refs, params := params, pmeta := pm }] }
 
 def itpAtomLine (line : String) (c : Ctx) : Option Ctx := do
   let toks ← tokenizeS line
@@ -389,10 +507,10 @@ def itpHandle (idxTab : List (String × List Idx)) (tab : List Entry) (p : Path)
   match findEntry tab p with
   | none => none
   | some e =>
-    if e.method = "_block" then nameLine2 line c
-    else if e.method = "_block_atoms" then itpAtomLine line c
+    if e.method = "_block" then nameLine2 (decodeMeta line).2 c
+    else if e.method = "_block_atoms" then itpAtomLine (decodeMeta line).2 c
     else if e.method = "_interactions" then itpInteraction idxTab (p.getLast?.getD "") line c
-    else if e.method = "_macros" then (parseMacro line).map fun _ => c
+    else if e.method = "_macros" then (parseMacro (decodeMeta line).2).map fun _ => c
     else some c
 
 def itpParams (idxTab : List (String × List Idx)) (tab : List Entry) : IParams Ctx :=
@@ -400,14 +518,19 @@ def itpParams (idxTab : List (String × List Idx)) (tab : List Entry) : IParams 
     atomsEnded := fun c => { c with snapshot := c.nodes.map (·.1) },
     fresh := {}, nameOf := fun c => c.name }
 
-/-- model of `read_itp` for files without pragmas; a content line before any
+/-- model of `read_itp`; a content line before any
 `[ moleculetype ]` (e.g. under `[ macros ]`) has no block to go to and is rejected by the
 model only if its section needs one -/
 def readITP (idxTab : List (String × List Idx)) (tab : List Entry) (raw : List String) :
     Option (List (Option String × (Nat × Ctx))) := do
   let lines ← classify raw
-  let lines' ← expandMacros (tab.map (·.path)) [] [] lines
-  let s ← itpRun (itpParams idxTab tab) lines'
+  let tagged ← pragmaPass none lines
+  let lines' ← expandMacros (tab.map (·.path)) [] [] (tagged.map (·.1))
+  let lines'' := (lines'.zip (tagged.map (·.2))).map fun (l, m) =>
+    match l with
+    | .content t => Line.content (encodeMeta m t)
+    | h => h
+  let s ← itpRun (itpParams idxTab tab) lines''
   pure s.blocks
 
 end C13
